@@ -787,9 +787,6 @@ FEATURES = [
     ("C12-timedelta-hash-TypeError",
      lambda t1, t2, sp, c: (sp["sig"] is not None or sp["numty"]) and any(isinstance(a, datetime.timedelta) for a in all_atoms2(t1, t2) + all_keys2(t1, t2)),
      both(lambda a: "td<%r>" % a.total_seconds() if isinstance(a, datetime.timedelta) else a)),
-    ("C12-truncate-date-timedelta-raises",
-     lambda t1, t2, sp, c: bool(sp["trunc"]) and any(_is_date_or_td(a) for a in all_atoms2(t1, t2)),
-     both(lambda a: "dtd<%s>" % a if _is_date_or_td(a) else a)),
     ("C12-date-key-cleaning-TypeError",
      lambda t1, t2, sp, c: cleaning(sp) and (sp["sig"] is not None or sp["numty"]) and any(_is_dtlike(k) for k in all_keys2(t1, t2)),
      both_keys(lambda k: _is_dtlike(k), lambda k: "dtk<%s %s>" % (type(k).__name__, k))),
@@ -833,10 +830,9 @@ PREDICTS = {
     # the missing type check makes the diff engine more lenient, or makes the comparer of t1's type raise
     "C12-enum-unwrap-skips-type-check": lambda h, d, x: (h, d) == ("F", "empty") or d in ("EXC:AttributeError", "EXC:TypeError"),
     "C12-enum-distance-TypeError": lambda h, d, x: d == "EXC:TypeError",
-    # round(datetime) in _diff_numbers (TypeError); with truncate_datetime the datetime comparer normalises the NUMBER: number.replace (AttributeError)
-    "C12-number-vs-datetime-TypeError": lambda h, d, x: d == "EXC:TypeError" or (d == "EXC:AttributeError" and bool(x["sp"]["trunc"])),
+    # round(datetime) in _diff_numbers (since /repo 1c8f0f8 datetime_normalize leaves a number alone: no AttributeError under truncation any more)
+    "C12-number-vs-datetime-TypeError": lambda h, d, x: d == "EXC:TypeError",
     "C12-timedelta-hash-TypeError": lambda h, d, x: h == "X",
-    "C12-truncate-date-timedelta-raises": lambda h, d, x: d in ("EXC:TypeError", "EXC:AttributeError"),
     "C12-date-key-cleaning-TypeError": lambda h, d, x: d == "EXC:TypeError",
     "C12-decimal-exponent": LENIENT,
     # the diff engine's shared table hides a difference (lenient); the hash engine's own table can also make the
@@ -1565,6 +1561,21 @@ def ymodel_follows_c9e614d(ctx):
     return ok
 
 
+def ymodel_follows_1c8f0f8(ctx):
+    """as ymodel_follows_c9e614d, for /repo 1c8f0f8: date / timedelta (and every non-datetime) value under truncate_datetime is
+    compared as without the option instead of raising"""
+    txt = ctx.coq_eval("c12y_probe_1c8f0f8", YHEADER, "run_c12y_flags [probe_trunc_date_fixed]")
+    ok = (txt or "").strip() == "T"
+    ctx.note("options_model_follows_fix_1c8f0f8", ok)
+    return ok
+
+
+def trunc_touches_non_datetime(t1, t2, sp):
+    """the cases whose diff-side model is the branch changed by 1c8f0f8: truncate_datetime with a date / timedelta value, or with the
+    numeric type group in force (a number may face a datetime / time)"""
+    return bool(sp["trunc"]) and (sp["numty"] or any(_is_date_or_td(a) for a in all_atoms2(t1, t2)))
+
+
 def _ytask(args):
     t1l, t2l, sp, rep = args
     t1, t2 = unlit(t1l), unlit(t2l)
@@ -1580,6 +1591,7 @@ def y_stream(ctx, pool, pairs, label="ymodel"):
     res = pool.map(_ytask, args, chunksize=8)
     cases, hyp = [], []
     follows = ymodel_follows_c9e614d(ctx)
+    follows2 = ymodel_follows_1c8f0f8(ctx)
     for (fam, a, b, _sp, _r), (t1l, t2l, sp, rep, he, dv, alias) in zip(pairs, res):
         nm = name_of(sp)
         ok = agree(he, dv)
@@ -1600,6 +1612,9 @@ def y_stream(ctx, pool, pairs, label="ymodel"):
             continue
         if sp["enum"] and not follows and none_member_faces_none(a, b):
             ctx.count("%s:outside(None-valued member facing None: Options/YModel.v does not follow the fix c9e614d yet)" % label)
+            continue
+        if not follows2 and trunc_touches_non_datetime(a, b, sp):
+            ctx.count("%s:outside(truncate_datetime on a non-datetime value: Options/YModel.v does not follow the fix 1c8f0f8 yet)" % label)
             continue
         if dv.startswith("EXC:") and dv not in ("EXC:TypeError", "EXC:ValueError", "EXC:AttributeError"):
             ctx.count("%s:outside(exception %s)" % (label, dv[4:]))
@@ -1877,8 +1892,12 @@ WITNESSES = [
     ("Y.C12_enum_same_class_refuted", E.B, E.D, _s(enum=True, case=True), False, (True, "nonempty")),
     ("Y.C12_enum_unwrap_skips_type_check_refuted", E.A, 1.0, _s(enum=True), False, (False, "empty")),
     ("Y.C12_timedelta_hash_refuted", datetime.timedelta(seconds=5), datetime.timedelta(seconds=5), _s(sig=0), False, ("EXC:TypeError", "empty")),
-    ("Y.C12_truncate_date_timedelta_refuted(date)", {"k": datetime.date(2024, 1, 1)}, {"k": datetime.date(2024, 1, 1)}, _s(trunc="hour"), False, (True, "EXC:TypeError")),
-    ("Y.C12_truncate_date_timedelta_refuted(timedelta)", {"k": datetime.timedelta(seconds=5)}, {"k": datetime.timedelta(seconds=5)}, _s(trunc="hour"), False, (True, "EXC:AttributeError")),
+    # the behaviour after the /repo fix 1c8f0f8 (a return of the defect is reported here)
+    ("C12-truncate-date-timedelta-raises fixed (1c8f0f8): date", {"k": datetime.date(2024, 1, 1)}, {"k": datetime.date(2024, 1, 1)}, _s(trunc="hour"), False, (True, "empty")),
+    ("C12-truncate-date-timedelta-raises fixed (1c8f0f8): timedelta", {"k": datetime.timedelta(seconds=5)}, {"k": datetime.timedelta(seconds=5)}, _s(trunc="hour"), False, (True, "empty")),
+    ("C12-truncate-date-timedelta-raises fixed (1c8f0f8): different dates still differ", {"k": datetime.date(2024, 1, 1)}, {"k": datetime.date(2024, 1, 2)}, _s(trunc="day"), False, (False, "nonempty")),
+    ("C12-truncate-date-timedelta-raises fixed (1c8f0f8): different timedeltas still differ", {"k": datetime.timedelta(seconds=5)}, {"k": datetime.timedelta(seconds=6)}, _s(trunc="minute"), True, (False, "nonempty")),
+    ("C12-truncate-date-timedelta-raises fixed (1c8f0f8): a time facing a number", datetime.time(10, 20, 30), 9, _s(trunc="minute", numty=True), False, (False, "nonempty")),
     ("Y.C12_date_key_cleaning_refuted", {datetime.date(2024, 1, 1): 1}, {datetime.date(2024, 1, 1): 1}, _s(case=True, sig=3), False, (True, "EXC:TypeError")),
     ("Y.C12_extended_universe_agree_examples(trunc)", C11._dt(2024, 1, 1, 10, 20, 1, 0), C11._dt(2024, 1, 1, 10, 20, 2, 0), _s(trunc="minute"), False, (True, "empty")),
     ("Y.C12_extended_universe_agree_examples(tz)", C11._dt(2024, 1, 1, 10, 20, 30, 0), C11._dt(2024, 1, 1, 8, 20, 30, 0, 0), _s(tz=120), False, (True, "empty")),
